@@ -259,6 +259,19 @@ class C08Run(object):
                     self.count(self.fired, 'socket_event')
                 except OSError:
                     pass
+        elif kind == 'clockjump':
+            # the wall clock is stepped (timers run on the monotonic clock) -
+            # once the shutdown has been triggered (before, a large step
+            # backwards pauses tornado's periodic callback and with it the
+            # activity the trigger's own placement counts)
+            if self.trigger_t is None:
+                self.cj_tries = getattr(self, 'cj_tries', 0) + 1
+                if self.cj_tries < 200:
+                    w.sim.after(0.02, lambda: self.exec_op(op, i), 'op')
+                return
+            w.sim.wall_offset += float(op['delta'])
+            w.sim.rec('clockjump', op['delta'])
+            self.count(self.fired, 'clock_jump')
         elif kind == 'addsock':
             # the configuration file gains a managed unix socket (bound by
             # the next reloadconfig, not at start-up): its file is the
@@ -620,6 +633,12 @@ class C08(Prop):
                         'w': rng.randrange(nw),
                         'props': {'nb': 1} if cmd == 'incr' else {},
                         'waiting': rng.random() < 0.5})
+        if rng.random() < 0.1:
+            # the wall clock is stepped while the shutdown runs (grace
+            # periods are lengths of time)
+            ops.append({'op': 'clockjump', 'late': True,
+                        'delta': rng.choice([-3600.0, -86400.0, 3600.0, -2.0]),
+                        'at': tt + rng.choice([0.0, 0.01, 0.05, 0.2, 0.5])})
         # deaths racing the shutdown
         for _ in range(rng.choice([0, 0, 1, 2])):
             ops.append({'op': 'die', 'at': tt + rng.choice(
